@@ -878,6 +878,7 @@ func (c *rowopsCtx) history(nops int) string {
 		keysBefore := rowKeys(row)
 		abandon := false
 		var newRow jsonline.Row
+		noteCase("rowops", strings.Join(hist, " ; ")+" ; <next operation>")
 		p, msg := guard(func() {
 			switch r.intn(16) {
 			case 0, 1:
